@@ -139,6 +139,16 @@ class Routes:
 
     def emit(self, label, body, name=None, extends=None):
         p = self.parsed(body, name, extends)
+        # log every temporary the builder hands out while this module is emitted
+        allocations = []
+        CB = self.OS.CodeBuilder
+        orig = CB._reserve_name
+
+        def logged(builder, base_name):
+            r = orig(builder, base_name)
+            allocations.append(str(r))
+            return r
+        CB._reserve_name = logged
         try:
             out = self.it.call(self.tr.env['generate_source_code'], ['# Grammar definition:\n(route)', p], {})
         except M.MetaRaise as e:
@@ -146,7 +156,11 @@ class Routes:
         except RecursionError:
             return M.MetaRaise(RecursionError('the translator recurses without bound on this grammar'),
                                'sourcer/expressions (argumentize/functionalize)')
-        return Emitted(label, out.source_code(), name is not None, extends is not None, out)
+        finally:
+            CB._reserve_name = orig
+        em = Emitted(label, out.source_code(), name is not None, extends is not None, out)
+        em.allocations = allocations
+        return em
 
 
 def node(kind, **kw):
